@@ -58,6 +58,18 @@ FOCUS = {
                   "columns for square inputs; degrees wrapped at 360 versus at 180; natural versus base-10 logarithm where both give the same answer for the values tests use; a default that "
                   "coincides with the tested value. Each change must be indistinguishable from the original on generic (random, non-tied, non-integer, non-square) inputs and wrong on the "
                   "boundary input -- which must be a legal input the property quantifies over. Say in notes.md exactly which boundary it is.\n",
+    "faults": "\nFOCUS OF THIS ROUND: FAULTS and what they leave behind. Prefer changes that are invisible as long as every call succeeds and only show after something went wrong "
+              "at a particular point: an exception raised half way through a loop over files, recordings, windows, azimuths or settings attributes (a refused input in the MIDDLE of a list, a missing key, "
+              "an invalid argument detected late), an object or a module-level structure left half updated by such an exception, a resource or a temporary override (masks, settings, logging level, "
+              "numpy error state, working directory, caches, memoised values) that is not restored on the error path, a retry after the failure, or the next ordinary call on the same object / same "
+              "settings / in the same process after a failed one. Also welcome: a cache or memo keyed too coarsely, so that a second, different request is answered from the first. The failing scenario must "
+              "still be one the property quantifies over (the property must speak about the state or result observed AFTER the fault, or about a later successful call).\n",
+    "sizes": "\nFOCUS OF THIS ROUND: SIZES and SHAPES that the tests never reach. Prefer changes that are right for the sizes ordinary use and the tests hand over and wrong beyond a threshold or for a degenerate "
+             "shape: more windows / azimuths / files / sensors / frequencies than some small number (a fast path below a threshold and a slow path above it, a chunk size, a buffer or block length, a "
+             "pre-allocated array length, an integer dtype narrowed to int16/int32/float32 'to save memory'), exactly one or exactly two of something, an odd versus even count, a length that is or is not a "
+             "power of two or a multiple of a block, records much longer or much shorter than a window, a window as long as the record, square versus non-square arrays, a vectorised formula that silently "
+             "broadcasts when two lengths coincide. Each change must agree with the original on small generic cases and differ on the special size -- which must be a legal input the property quantifies over. "
+             "Say in notes.md exactly which size or shape it is.\n",
 }
 
 
